@@ -396,6 +396,8 @@ def ex_linear_trend(c):
 def ex_normalize(c):
     a, other = arr(c["a"], c.get("container", "array")), arr(c["other"], c.get("container", "array"))
     lo, hi = fl(c["lo"]), fl(c["hi"])
+    if c["lo"][1] == 1 and c["hi"][1] == 1 and len(c["a"]) % 3 == 0:       # integer-valued range handed over as Python ints
+        lo, hi = int(lo), int(hi)
     if c["lo"] == [0, 1] and c["hi"] == [1, 1] and len(c["a"]) % 2 == 0:      # documented default range left implicit
         oc, o = guarded(lambda: proc.normalize(a))
     else:
